@@ -345,3 +345,17 @@ func (b *Box) N() int {
 	defer b.locked()()
 	return b.n
 }
+
+// SyncMapOrder: the order in which a fresh sync.Map hands out its entries.
+func SyncMapOrder() string {
+	var m sync.Map
+	for _, k := range []string{"delta", "alpha", "charlie", "bravo", "echo", "foxtrot"} {
+		m.Store(k, len(k))
+	}
+	out := ""
+	m.Range(func(k, _ any) bool {
+		out += k.(string)[:1]
+		return true
+	})
+	return out
+}
